@@ -62,32 +62,12 @@ def run(tier, prop=PROP, mode=MODE):
     if mode == "dispatch":
         # argument / result fidelity of callback calls over the signature family (every parameter
         # kind, guest-side boundary values, results beyond the guest range) under three guest ABIs
-        import os
-        sdrv = vp.build_many([("sig_driver", ["sig_driver.cpp"], ["-DVM_MAX_FUNCS=64"]),
-                              ("sig_driver_lp16", ["sig_driver.cpp"], ["-DVM_MAX_FUNCS=64", "-DABI_LP16"]),
-                              ("sig_driver_lp64u", ["sig_driver.cpp"], ["-DVM_MAX_FUNCS=64", "-DABI_LP64U"])])
-        sev = []
-        for abi in ("wasm32", "lp16", "lp64u"):
-            apath = os.path.join(wd, "sig_%s.ndjson" % abi)
-            p = vp.run([sdrv["sig_driver" + ("" if abi == "wasm32" else "_" + abi)], apath, str(vp.seed())], timeout=600)
-            if p.returncode != 0:
-                raise vp.Broken("sig_driver(%s) rc=%d %s" % (abi, p.returncode, p.stderr[-300:]))
-            for e in vp.read_ndjson(apath):
-                e["abi"] = abi
-                sev.append(e)
-        spath = os.path.join(wd, "sig.ndjson")
-        vp.write_ndjson(spath, sev)
-        r = vp.tlc(os.path.join(vp.SPEC, "Trace_Invoke.tla"), os.path.join(vp.SPEC, "Trace_Invoke_cb.cfg"), workers=1,
-                   name="Trace_Invoke_cb", timeout=600, env={"TRACE": spath})
-        res = r.printed("RESULT")
-        if len(res) != 1 or res[0]["n"] != len(sev):
-            raise vp.Broken("Trace_Invoke (callbacks) did not complete: " + r.out[-1200:])
-        ncb = sum(1 for e in sev if e["e"] == "cbcall")
-        if ncb == 0:
-            raise vp.Broken("no callback calls were recorded")
-        chk.add_tlc("Trace_Invoke (callbacks)", r, "constant-level evaluation of CbAllowed on %d recorded callback calls" % ncb)
-        for b in res[0]["bad"]:
-            chk.violation("callback call outside the %s Contract: %s" % (prop, str(sev[b - 1])[:600]), sev[b - 1])
+        import sigcommon as sg
+        sev, spath, ngen, _ = sg.run(chk, wd, thorough)
+        badcb, ncb = sg.judge(chk, spath, sev, "cbcall", "CbAllowed")
+        for ev in badcb:
+            chk.violation("callback call outside the %s Contract: %s" % (prop, str(ev)[:600]), ev)
+        chk.cov["callback_signatures"] = {"hand_listed": 17, "generated": ngen}
         total_ev += ncb
         chk.cov["callback_signature_calls"] = ncb
     chk.count(evaluations=total_ev, distinct=len(t_vm) + len(t_nat), traces=total_trees)
